@@ -7,6 +7,10 @@ package coroutines
 
 //@ func ReadPromise
 //@ props C01 C02 C04 C20
+// a request is retried only after a store transaction that went through without effect (a conflict with
+// another coroutine); a failed transaction is answered with the error, never retried (C12: while the store
+// keeps failing the request would otherwise never be answered)
+//@ site call ReadPromise assert [C12] err == nil
 //@ ghostdb coroutine
 //@ nopanic C13
 //@ requires c != nil && r != nil && r.ReadPromise != nil
@@ -18,6 +22,10 @@ package coroutines
 
 //@ func CompletePromise
 //@ props C01 C02 C03 C04 C20
+// a request is retried only after a store transaction that went through without effect (a conflict with
+// another coroutine); a failed transaction is answered with the error, never retried (C12: while the store
+// keeps failing the request would otherwise never be answered)
+//@ site call CompletePromise assert [C12] err == nil
 //@ serves C06
 //@ ghostdb coroutine
 //@ nopanic C13
@@ -33,6 +41,10 @@ package coroutines
 
 //@ func createPromiseAndTask
 //@ props C01 C02 C03 C04 C08 C20
+// a request is retried only after a store transaction that went through without effect (a conflict with
+// another coroutine); a failed transaction is answered with the error, never retried (C12: while the store
+// keeps failing the request would otherwise never be answered)
+//@ site call createPromiseAndTask assert [C12] err == nil
 //@ serves C06
 //@ ghostdb coroutine
 //@ nopanic C13
@@ -188,6 +200,8 @@ package coroutines
 //@ ensures (res != nil) != (err != nil)
 //@ ensures err == nil ==> res.Kind == t_api.CreateCallback && res.CreateCallback != nil
 //@ ensures err == nil && r.CreateCallback.PromiseId == r.CreateCallback.RootPromiseId ==> res.CreateCallback.Status == t_api.StatusCallbackInvalidPromise
+// ids are compared exactly (C20): only a callback whose two ids are the same string is refused as self-referential
+//@ ensures [C20 C05] err == nil && r.CreateCallback.PromiseId != r.CreateCallback.RootPromiseId ==> res.CreateCallback.Status != t_api.StatusCallbackInvalidPromise
 //@ macro cbc_post() cb_post(res.CreateCallback.Status, res.CreateCallback.Promise, res.CreateCallback.Callback, sprintf("__resume:%s:%s", r.CreateCallback.RootPromiseId, r.CreateCallback.PromiseId), r.CreateCallback.PromiseId, r.CreateCallback.RootPromiseId, r.CreateCallback.Recv, "resume", r.CreateCallback.RootPromiseId, r.CreateCallback.PromiseId, r.CreateCallback.Timeout)
 //@ ensures [C02 C05] err == nil && r.CreateCallback.PromiseId != r.CreateCallback.RootPromiseId && res.CreateCallback.Status != t_api.StatusOK ==> cbc_post()
 //@ ensures [C02 C05] err == nil && r.CreateCallback.PromiseId != r.CreateCallback.RootPromiseId && res.CreateCallback.Status == t_api.StatusOK && res.CreateCallback.Promise.State != promise.Pending ==> cbc_post()
